@@ -80,13 +80,13 @@ def mesh_catalogue(tier):
     shipped("square_circle_hole_quad_9", "hypercube", 2, "general", 8, snap=5, quick=True)
     shipped("square_circle_hole_quad_9", "hypercube", 2, "general", 8, nref=1, snap=5)
     shipped("unit_circle_quad_12", "hypercube", 2, "general", 12, snap=5)
-    shipped("unit_ring_quad_32", "hypercube", 2, "general", 32, snap=5)
     shipped("flowbench_c2d_01_quad_32", "hypercube", 2, "general", 32, snap=5)
     shipped("l-shape-tria", "simplex", 2, "affine", 12, quick=True)
     shipped("unit_circle_tria_6", "simplex", 2, "affine", 6, snap=5)
     shipped("heat-v77-tria", "simplex", 2, "affine", 32, snap=5)
     shipped("cube_cylinder_hole_hexa_8", "hypercube", 3, "general", 8, snap=4, quick=True)
-    shipped("flowbench_s3d_01_hexa_11", "hypercube", 3, "general", 11, snap=4)
+    shipped("flowbench_s3d_01_hexa_11", "hypercube", 3, "general", 11, snap=5)
+    shipped("cube_sphere_hole_hexa_26", "hypercube", 3, "general", 26, snap=4)
     return M
 
 
@@ -99,7 +99,7 @@ def gen_plans(chk, tier):
         cfg = "gen_c16_%d_%s%d.cfg" % (os.getpid(), shape, dim)
         with open(os.path.join(vlib.SPEC, cfg), "w") as f:
             f.write("SPECIFICATION Spec\nCONSTANTS DegSlack = %d\n PlanShapes = {\"%s\"}\n PlanDims = {%d}\n PairKind = \"%s\"\n"
-                    "INVARIANTS MomLaw FormLaw Emit\nCHECK_DEADLOCK FALSE\n" % (2 if tier == "thorough" else 0, shape, dim, "all" if dim == 2 else "same"))
+                    "INVARIANTS MomLaw FormLaw Emit\nCHECK_DEADLOCK FALSE\n" % (2 if tier == "thorough" else 0, shape, dim, "same" if (shape, dim) == ("simplex", 3) else "all"))
         jobs.append((cfg, shape, dim))
     plans = {}
     try:
@@ -180,7 +180,7 @@ def sig_of(c, fl):
     s = {"kind": "assembly", "pred": fl["p"], "shape": c["shape"], "dim": c["dim"], "class": c["class"], "test": c["test"], "trial": c["trial"],
          "mesh": c["meshname"], "op": "", "detail": ""}
     if job:
-        s["op"] = job.get("op", job.get("fn", job.get("bop")))["name"]
+        s["op"] = job.get("op", job.get("fn", job.get("bop", {"name": "graddiv"})))["name"]
     d = fl["d"]
     s["detail"] = d if isinstance(d, str) and len(d) < 24 else ""
     return s
@@ -192,7 +192,7 @@ def report_harness_failure(chk, b, c, r):
     job = c["jobs"][0] if len(c["jobs"]) == 1 else None
     sig = {"kind": "harness", "pred": "harness:" + str(oc), "shape": c["shape"], "dim": c["dim"], "class": c["class"],
            "test": c["test"], "trial": c["trial"], "mesh": c["meshname"], "detail": "",
-           "op": job.get("op", job.get("fn", job.get("bop")))["name"] if job else ""}
+           "op": job.get("op", job.get("fn", job.get("bop", {"name": "graddiv"})))["name"] if job else ""}
     slim = {k: c[k] for k in c if k != "out"}
     chk.violation(sig, "%s: %s" % (c["id"], " ".join(desc.split())[:500]), {"kind": "case", "harness": b, "case": slim, "result": r})
 
@@ -234,8 +234,8 @@ def _run(chk, tier, gdir):
                         "dense": ncells <= 8, "pat": ncells <= (300 if dim == 2 else 70)}
 
                 def jkey(j):
-                    return json.dumps([shape, dim, cls, test, trial, j["k"], j.get("op", j.get("fn", j.get("bop"))), j["deg"]], sort_keys=True)
-                js = [restrict(j, SCALAR_ROUTES) for j in jobs if j["k"] != "blk"]
+                    return json.dumps([shape, dim, cls, test, trial, j["k"], j.get("op", j.get("fn", j.get("bop", {"name": "graddiv"}))), j["deg"]], sort_keys=True)
+                js = [restrict(j, SCALAR_ROUTES) for j in jobs if j["k"] not in ("blk", "gd")]
                 js = [j for j in js if j["ref"] in j["routes"]]
                 cid = "%s_%s_%s" % (name, test, trial)
                 c = dict(base, id=cid, jobs=js, out=os.path.join(gdir, cid + ".json"))
@@ -247,7 +247,7 @@ def _run(chk, tier, gdir):
                     route_cover[jkey(j)][1] |= set(j["routes"])
                 if (shape, dim) in specials:
                     sj = [restrict(j, SPECIAL_ROUTES + ["classic"]) for j in jobs if j["k"] == "mat" and set(j["routes"]) & set(SPECIAL_ROUTES)]
-                    sj += [j for j in jobs if j["k"] == "blk"]
+                    sj += [j for j in jobs if j["k"] in ("blk", "gd")]
                     if sj:
                         cid2 = cid + "_sp"
                         c2 = dict(base, id=cid2, jobs=sj, out=os.path.join(gdir, cid2 + ".json"), dense=False, pat=False)
@@ -262,7 +262,11 @@ def _run(chk, tier, gdir):
     uncovered = {k: sorted(v[0] - v[1]) for k, v in route_cover.items() if v[0] - v[1]}
     if [k for k in uncovered if tuple(json.loads(k)[:2]) in specials]:
         raise vlib.MachineryError("routes of the catalogue that no harness executes: %s" % list(uncovered.items())[:3])
-    chk.extra["routes_not_executed"] = sorted(set(r for v in uncovered.values() for r in v))
+    nx = {}
+    for k, v in uncovered.items():
+        kk = json.loads(k)
+        nx.setdefault("%s%d" % (kk[0], kk[1]), set()).update(v)
+    chk.extra["routes_not_executed"] = {k: sorted(v) for k, v in nx.items()}   # shapes without a special-route harness (tetrahedra)
 
     # ---- harness: execute and dump ----
     dumps = []
@@ -355,7 +359,7 @@ def _run(chk, tier, gdir):
             c = bycase[d["id"]]
             slim = {k: c[k] for k in c if k != "out"}
             job = d["jobs"][fl["j"] - 1] if fl["j"] >= 1 else None
-            chk.violation(sig_of(d, fl), "%s: %s does not hold (job %s, %s)" % (d["id"], fl["p"], json.dumps(job["spec"].get("op", job["spec"].get("fn", job["spec"].get("bop")))) if job else "-", fl["d"]),
+            chk.violation(sig_of(d, fl), "%s: %s does not hold (job %s, %s)" % (d["id"], fl["p"], json.dumps(job["spec"].get("op", job["spec"].get("fn", job["spec"].get("bop", "graddiv")))) if job else "-", fl["d"]),
                           {"kind": "case", "harness": "c16", "case": slim, "fail": fl, "obs": job["obs"] if job else None})
     if nids and nundec * 20 > nids:
         raise vlib.MachineryError("%d of %d identity values were not decidable within the rounding bound" % (nundec, nids))
@@ -374,7 +378,7 @@ def _run(chk, tier, gdir):
                 "(u,v) of the spaces; each plan is executed on every mesh of its class; one evaluation = one job on one mesh (all its routes and "
                 "identities), judged by TLC against spec/AssemblyCheck.tla; non-trivial = the case has at least one job; distinct = mesh x pair")
     for d in full[:3]:
-        chk.sample({"id": d["id"], "n": d["n"], "jobs": [j["spec"].get("op", j["spec"].get("fn", j["spec"].get("bop"))) for j in d["jobs"]][:6], "verdict": verdicts[d["id"]]})
+        chk.sample({"id": d["id"], "n": d["n"], "jobs": [j["spec"].get("op", j["spec"].get("fn", j["spec"].get("bop", "graddiv"))) for j in d["jobs"]][:6], "verdict": verdicts[d["id"]]})
     chk.assumptions = [
         "values of integrals are decided through scaled integers: |v*S - round(v*S)| <= tol*S with tol = 4096*eps*mag*W (mag from the mass/Laplace "
         "diagonals by Cauchy-Schwarz, W = sum over the pattern of |u_i||v_j|) and tol*S < 1/4; otherwise the value counts as undecidable (reported)",
@@ -385,8 +389,37 @@ def _run(chk, tier, gdir):
 
 
 def replay(obj):
+    """re-execute the cases of a replay file through the harness and the specification; rc 1 if a verdict still fails"""
+    tmp = os.path.join(vlib.BUILD, "gen", "C16", "replay_%d" % os.getpid())
+    os.makedirs(tmp, exist_ok=True)
+    chk = vlib.Check("C16")
     bad = 0
-    for v in obj["violations"]:
-        print(json.dumps(v["sig"]), v["desc"][:400])
-        bad += 1
+    try:
+        seen = set()
+        for v in obj["violations"]:
+            rp = v.get("replay") or {}
+            c = rp.get("case")
+            if not c or c["id"] in seen:
+                continue
+            seen.add(c["id"])
+            key = (c["shape"], c["dim"])
+            special = any(j["k"] in ("blk", "gd") or set(j["routes"]) & set(SPECIAL_ROUTES) for j in c["jobs"])
+            b = (SPECIAL_BINS if special else BINARIES)[key]
+            binary, = vlib.build([b])
+            c = dict(c, out=os.path.join(tmp, c["id"] + ".json"))
+            r = vlib.run_cases(binary, [c], tmo=300, shards=1)[0]
+            if r.get("ok") is not True:
+                print(json.dumps({"case": c["id"], "harness": r})[:600])
+                bad += 1
+                continue
+            with open(c["out"]) as f:
+                d = json.loads(f.readline())
+            d["meshname"] = c["meshname"]
+            vd = judge_batches(chk, [d], max_procs=1)[d["id"]]
+            print(json.dumps({"case": c["id"], "fails": vd["fails"][:8]})[:1200])
+            kn = [fl for fl in vd["fails"] if not any(kf.get("status") == "known" and vlib._match(sig_of(d, fl), kf.get("match", {})) for kf in chk.known)]
+            if kn:
+                bad += 1
+    finally:
+        shutil.rmtree(tmp, ignore_errors=True)
     return 1 if bad else 0
